@@ -36,7 +36,9 @@ def run(ctx):
     ctx.rule("R14.3", "redo-always: add_dep(Modified, ALWAYS) then on the ALWAYS record set_stamp(MISSING), set_changed, save, then commit, all in one IMMEDIATE transaction")
     ctx.rule("R14.4", "the ALWAYS pseudo file: changed_runid raised to at least the current run id on load; never a source")
 
-    C = prog.one(r"@bin::ifcreate::run")
+    # (a closure the command builds and runs itself - e.g. the body handed to a shared "open transaction, look up the
+    # parent target, run, commit" helper - is part of the command)
+    C = common.splice_local_closures(prog, prog.one(r"@bin::ifcreate::run"))
     ba = BA.of(C)
     ex = ba.switches_on_call(r"std::path::Path::exists")
     adds = ba.calls(r"state::File::add_dep")
@@ -45,9 +47,11 @@ def run(ctx):
     if ctx.ob("R14.1", "%s|anchors" % C.key, len(ex) == 1 and len(adds) == 1 and len(commits) == 1 and bool(nexts), where=C.span, detail="exists test, add_dep, commit and the argument loop located"):
         sw, t_t, f_t, cbb = ex[0]
         errs = common.blocks_with_agg(C, r"core::result::Result", "Err")
-        common.not_reach(ctx, "R14.1", "%s|existing=>no-edge" % C.key, C, [t_t], adds + commits + nexts, "an existing path records nothing, commits nothing and ends the loop",
-                         "declaring redo-ifcreate for an existing file is accepted (or committed)")
-        common.mpt(ctx, "R14.1", "%s|existing=>error" % C.key, C, [t_t], ba.returns(), errs, "the existing side returns Err", "the existing side does not return an error")
+        # (feasible paths, core.FA: when the loop runs in a closure handed to a transaction helper, its `return Err(..)`
+        # reaches the helper's `?`, whose Continue arm - the commit - is not a path of an Err value)
+        common.not_reach_f(ctx, "R14.1", "%s|existing=>no-edge" % C.key, C, [t_t], adds + commits + nexts, "an existing path records nothing, commits nothing and ends the loop",
+                           "declaring redo-ifcreate for an existing file is accepted (or committed)")
+        common.mpt_f(ctx, "R14.1", "%s|existing=>error" % C.key, C, [t_t], ba.returns(), errs, "the existing side returns Err", "the existing side does not return an error")
         ctx.ob("R14.1", "%s|missing=>add_dep" % C.key, ba.edge_dominates((sw, f_t), adds[0]), where=ctx.where(C, adds[0]), detail="add_dep is dominated by the not-exists edge")
         ctx.ob("R14.1", "%s|mode-Created" % C.key, mode_of(C, adds[0], 2) == "Created", where=ctx.where(C, adds[0]), detail="mode: %s" % mode_of(C, adds[0], 2))
         # same path tested and recorded
@@ -73,7 +77,7 @@ def run(ctx):
     ctx.rule("R14.5", "the per-run memo of the dirtiness routine is consulted only after the 'changed later than parent' test, so a re-stamped //ALWAYS stays dirty for every dependent in the run")
     dirt.memo_placement(ctx, "R14.5")
 
-    A = prog.one(r"@bin::always::run")
+    A = common.splice_local_closures(prog, prog.one(r"@bin::always::run"))
     aba = BA.of(A)
     ad = aba.calls(r"state::File::add_dep")
     ss = aba.calls(r"state::File::set_stamp")
@@ -81,13 +85,17 @@ def run(ctx):
     sv = aba.calls(r"state::File::save")
     cm = aba.calls(r"state::ProcessTransaction::commit")
     tx = aba.calls(r"state::ProcessTransaction::new")
-    oks = common.ok_returns(A)
+    # where the command's Ok result is built (followed through the locals a spliced-in helper routes it through)
+    oks = common.returned_ok_blocks(A)
     if ctx.ob("R14.3", "%s|anchors" % A.key, all(len(x) == 1 for x in (ad, ss, sc, sv, cm, tx)) and bool(oks), where=A.span, detail="add_dep, set_stamp, set_changed, save, commit, transaction located"):
         order = [tx[0], ad[0], ss[0], sc[0], sv[0], cm[0]]
-        ok = all(aba.dominates(order[i], order[i + 1]) for i in range(len(order) - 1))
+        # (feasible paths: an Err leaving a spliced-in closure / helper does not continue into the caller's success path)
+        from core import FA
+        afa = FA.of(A)
+        ok = all(afa.dominates(order[i], order[i + 1]) for i in range(len(order) - 1))
         ctx.ob("R14.3", "%s|sequence" % A.key, ok, where=A.span, detail="transaction -> add_dep -> set_stamp -> set_changed -> save -> commit, each dominating the next")
         for nm, M in (("add_dep", ad), ("set_changed", sc), ("save", sv), ("commit", cm)):
-            common.mpt(ctx, "R14.3", "%s|Ok=>%s" % (A.key, nm), A, [0], oks, M, "Ok is returned only after %s" % nm, "redo-always can succeed without %s" % nm)
+            common.mpt_f(ctx, "R14.3", "%s|Ok=>%s" % (A.key, nm), A, [0], oks, M, "Ok is returned only after %s" % nm, "redo-always can succeed without %s" % nm)
         ctx.ob("R14.3", "%s|mode-Modified" % A.key, mode_of(A, ad[0], 2) == "Modified", where=ctx.where(A, ad[0]), detail="mode: %s" % mode_of(A, ad[0], 2))
         # dependency is the ALWAYS pseudo file and the re-stamped record is from_name(ALWAYS)
         sl, org, _ = backward_direct(A, op_local(A.blocks[ad[0]]["term"]["args"][3]))
@@ -119,7 +127,7 @@ def run(ctx):
     cmp_always = [i for i in fba.all_calls() if any("PartialEq" in p or p.endswith("::eq") for p in callee_paths(F.blocks[i]["term"]))]
     ok = bool(w) and bool(mx)
     # the write is under the `name == ALWAYS` test and derives from the runid parameter (arg 2)
-    named_always = any(s == "//ALWAYS" for (_, _, s, nm) in __import__("core").str_consts(F))
+    named_always = any(s == "//ALWAYS" for s in common.str_literals(F))
     closure_max = [b for b in prog.children(F) if BA.of(b).calls(r"core::cmp::max")]
     ok = bool(w) and named_always and (bool(mx) or bool(closure_max))
     ctx.ob("R14.4", "from_cols_with_runid|ALWAYS-changed_runid>=runid", ok, where=F.span,
